@@ -22,7 +22,7 @@ def isSpaceTab (c : Char) : Bool := c == ' ' || c == '\t'
 /-! ### `StateBlock.__init__`: the line tables -/
 
 def mkLine (text : List Char) (indent offset : Nat) (lf : Bool) : BLine :=
-  { empty := decide (text.length ≤ indent), sCount := offset, text := text, tShift := indent, bs := 0, hasLF := lf }
+  { sCount := offset, text := text, tShift := indent, bs := 0, hasLF := lf }
 
 /-- the `for pos, character in enumerate(self.src)` loop; `cur` = characters of the current line so
     far.  Blanks at the very end of the source that follow the last line feed never reach the
@@ -38,7 +38,7 @@ def scanGo : List Char → List Char → Bool → Nat → Nat → List BLine
       [mkLine (cur ++ [c]) indent offset false]
     else scanGo rest (cur ++ [c]) true indent offset
 
-def sentinelLine : BLine := { empty := true, sCount := 0, text := [], tShift := 0, bs := 0, hasLF := false }
+def sentinelLine : BLine := { sCount := 0, text := [], tShift := 0, bs := 0, hasLF := false }
 
 /-- the state `ParserBlock.parse` starts from -/
 def initBState (src : List Char) : BState :=
